@@ -126,8 +126,32 @@ CHECKS = {
         note=TB + 'ast.parse is trusted to produce the tree the harness renders.'),
 }
 
+CHECKS.update({
+    'C06': dict(
+        cat='proof', ref='5/C06',
+        technique='Lean 4 theorems: invariance of the semantics under presentation (SameK), state renaming (Iso), atom '
+                  'renaming and generated substructures, transported to the CTL/LTL models through exactness + '
+                  'differential runs over presentations x PYTHONHASHSEEDs in fresh interpreters',
+        text='Theorems PMC.C06.*: the CTL and LTL models give the same answer for any two presentations of one '
+             'structure (any order / repetition of states, successors, labels — i.e. any set/dict iteration order), '
+             'commute with injective renaming of states and consistent renaming of atoms, and ignore states '
+             'unreachable from the structure. Tie: 3 presentations per case (ints/strings/tuples/mixed state names, '
+             'shuffled S/R/L, renamed atoms, added unreachable component) under 4 (quick) / 32 (thorough) hash seeds, '
+             'each seed in a fresh interpreter; all answers must equal the model\'s canonical answer.',
+        note=TB + 'That CPython\'s actual iteration orders are among the modelled ones (all of them) needs no assumption; '
+             'the CTL* checker is covered by the correspondence only (its exactness theorem carries namesOK).'),
+    'C11': dict(
+        cat='proof', ref='5/C11',
+        technique='Lean 4 theorems eq_iff_same_tree / eq_hash / hashKey_injective / eq_refl / eq_symm / eq_trans from '
+                  'print injectivity (verified decoder of the printed language) + all-pairs differential run',
+        text='Theorems PMC.C11.*: for identifier-style non-reserved atoms and arity>=2, the modelled == (equality of '
+             'printed forms with the Bool special case) holds exactly for equal trees, equal formulas hash alike, hash '
+             'keys are injective, == is an equivalence. Tie: all ordered pairs of a pool per logic: ==, hash, set/dict '
+             'behaviour, Bool(b)==b both ways, clone() equal and node-disjoint.',
+        note=TB + 'Python\'s reflected-operand dispatch and clone()\'s allocation are run-time facts observed by the harness.'),
+})
+
 NOT_YET = {
-    'C06': 'check under construction in this session (theorems being proved: presentation invariance)',
     'C07': 'check under construction in this session',
     'C08': 'check under construction in this session (class-table translator)',
     'C09': 'check under construction in this session (print injectivity proved; parser tie pending)',
